@@ -138,6 +138,22 @@ def run_case(case):
             if tz:  # hand over zone-aware instants where the wall-clock form would be ambiguous
                 ai = None if a is None else pd.Timestamp(a).tz_convert(tz)
                 bi = None if b is None else pd.Timestamp(b).tz_convert(tz)
+                if hash((a, b)) % 3 == 0:   # ... or the same instants expressed in another zone
+                    other = "UTC" if tz != "UTC" else "Asia/Tokyo"
+                    ai = None if a is None else pd.Timestamp(a).tz_convert(other)
+                    bi = None if b is None else pd.Timestamp(b).tz_convert(other)
+                    try:
+                        tg.set_restricted_grid(ai, bi)
+                        got_o = [int(i) for i in tg.restricted.I]
+                        want_o = [i for i, p in enumerate(g.points) if (a is None or a <= p) and (b is None or p < b)]
+                        if got_o != want_o:
+                            V.append(viol("c19.restricted", "restricted grid for a window given in zone %s [%s, %s): indices %s, expected %s" % (other, ai, bi, got_o[:8], want_o[:8]), tags, ctag + ["other_zone"]))
+                            break
+                    except Exception as ex:
+                        V.append(viol("c19.restricted_raises", "set_restricted_grid with a window in zone %s raises %s" % (other, short_exc(ex)), tags, ctag + ["other_zone"]))
+                        break
+                    ai = None if a is None else pd.Timestamp(a).tz_convert(tz)
+                    bi = None if b is None else pd.Timestamp(b).tz_convert(tz)
                 if hash((a, b)) % 2:  # and naive wall-clock time otherwise (localised by the grid)
                     try:
                         ai2 = None if a is None else pd.Timestamp(g.iso(a))
@@ -195,6 +211,53 @@ def run_case(case):
                         V.append(viol("c19.coarse_raises", "coarse restricted grid %s on [%s, %s) raises %s" % (cf, ai, bi, short_exc(ex)), tags, ctag + ["coarse"]))
                         break
             res["counters"]["coarse"] = res["counters"].get("coarse", 0) + len(cwins)
+    if freq in ("h", "2h", "6h") and T >= 8:
+        for cf in ("d", "2d"):
+            for (a, b) in [(None, None), (g.all_points[min(2, T)], None)]:
+                # the coarse grid is anchored at the window start: use local midnights as starts so that calendar days are meant
+                a2 = g.start if a is None else a
+                w0 = a2.astimezone(__import__("zoneinfo").ZoneInfo(tz)) if tz else a2
+                if (w0.hour, w0.minute) != (0, 0):
+                    continue
+                ai = None if a is None else (pd.Timestamp(a).tz_convert(tz) if tz else pd.Timestamp(g.iso(a)))
+                groups = g.coarse(a, b, cf)
+                if any(len(G) == 0 for G in groups):
+                    continue
+                try:
+                    tg.set_restricted_grid(ai, None, cf)
+                    r = tg.restricted
+                    got = [[int(i) for i in G] for G in r.I_minor_in_major]
+                    sums = [float(dt_impl[G].sum()) for G in got]
+                    flat = [i for G in got for i in G]
+                    if got != groups or len(flat) != len(set(flat)) or not np.allclose(np.asarray(r.dt, float), sums):
+                        V.append(viol("c19.coarse_calendar", "coarse grid %s (calendar days) from %s: fine steps per interval %s (dt %s), expected %s (dt sums %s)"
+                                      % (cf, ai, [len(G) for G in got], list(np.round(np.asarray(r.dt, float), 3)), [len(G) for G in groups],
+                                         [round(float(dt_impl[G].sum()), 3) for G in groups]), tags, ctag + ["coarse_calendar"]))
+                        break
+                    res["counters"]["coarse_calendar"] = res["counters"].get("coarse_calendar", 0) + 1
+                except Exception as ex:
+                    V.append(viol("c19.coarse_raises", "coarse restricted grid %s from %s raises %s" % (cf, ai, short_exc(ex)), tags, ctag + ["coarse_calendar"]))
+                    break
+    # ---- interval data on a RESTRICTED grid whose window begins before the grid: a single start without end is valid for ever
+    if 2 <= T <= 60:
+        a0 = g.instant(("before", 1))
+        ai = pd.Timestamp(a0).tz_convert(tz) if tz else pd.Timestamp(g.iso(a0))
+        try:
+            tg.set_restricted_grid(ai, None)
+            r = tg.restricted
+            s0 = g.instant(("before", 2))
+            si = pd.Timestamp(s0).tz_convert(tz) if tz else pd.Timestamp(g.iso(s0))
+            for form, d in (("scalar", dict(start=si, values=7.0)), ("list", dict(start=[si], values=[7.0])),
+                            ("array", dict(start=np.array([si.tz_localize(None) if si.tzinfo is None else si.tz_convert(tz).tz_localize(None)], dtype="datetime64[ns]"), values=np.array([7.0])))):
+                if form == "array" and tz:
+                    continue
+                got = r.values_to_grid(d)
+                if len(got) != r.T or not np.all(got == 7.0):
+                    V.append(viol("c19.assignment", "restricted grid starting before the grid, single start %s without end (%s): values %s, expected 7.0 everywhere"
+                                  % (si, form, list(got[:6])), tags, ctag + ["interval", "restricted_single_start"]))
+                    break
+        except Exception as ex:
+            V.append(viol("c19.values_raises", "values_to_grid on a restricted grid raises %s" % short_exc(ex), tags + ["exc:" + type(ex).__name__], ctag + ["interval", "restricted_single_start"]))
     # ---- interval data
     if 2 <= T <= 40:
         specs = [("before", 1), ("gp", 0), ("gp", 1), ("mid", 1), ("gp", T - 1), ("after", 1)]
